@@ -186,4 +186,41 @@ theorem foldlM_ok_all {α β : Type} (f : β → α → Except Err β) (l : List
       · exact ⟨a, b, hy⟩
       · exact ih b h x hx
 
+/-- the tail of a definition / single branch of `from_json`: `Delegation(...)`, `set_details`, `add_delegations` - when it
+succeeds it appends one delegation carrying exactly the format and pool name it was given -/
+theorem build_tail_ok (ops : DetailOps D) (ty : DType) (k : String) (fmt : Fmt) (pool : Option String) (x : D)
+    (ds ds' : Delegations D)
+    (h : (mkDelegation ty k fmt pool >>= fun d => setDetails ops d x >>= fun d => addDelegation ds d) = .ok ds') :
+    ∃ d, ds'.items = ds.items ++ [d] ∧ d.id = k ∧ d.fmt = fmt ∧ d.pool = pool := by
+  cases hm : (mkDelegation ty k fmt pool : Except Err (Delegation D)) with
+  | error err => simp [hm, bind, Except.bind] at h
+  | ok d0 =>
+    have hc : d0.fmt = fmt ∧ d0.pool = pool ∧ d0.id = k := by
+      unfold mkDelegation at hm
+      split at hm
+      · cases hm
+      · split at hm
+        · cases hm
+        · injection hm with hm; subst hm; exact ⟨rfl, rfl, rfl⟩
+    simp only [hm, bind, Except.bind] at h
+    cases hs : setDetails ops d0 x with
+    | error err => simp [hs] at h
+    | ok d1 =>
+      simp only [hs] at h
+      have hd1 : d1.id = d0.id ∧ d1.fmt = d0.fmt ∧ d1.pool = d0.pool := by
+        unfold setDetails at hs
+        split at hs
+        · cases hs
+        · split at hs
+          · cases hs
+          · injection hs with hs; subst hs; exact ⟨rfl, rfl, rfl⟩
+      unfold addDelegation at h
+      split at h
+      · cases h
+      · split at h
+        · cases h
+        · injection h with h; subst h
+          exact ⟨d1, rfl, hd1.1.trans hc.2.2, hd1.2.1.trans hc.1, hd1.2.2.trans hc.2.1⟩
+
+
 end FimVerif.C12
